@@ -84,6 +84,8 @@ def handleC17 (c : Case) : Verdict :=
   let files := (List.range nfiles).map fileOf
   let readers := (List.range nfiles).map fun i => ({ data := fileOf i, failAtEnd := fails.contains i } : Reader)
   if (c.findAll "panic").size > 0 then .specfalse "C17:panic" "implementation-panicked" else
+  if (c.findAll "hang").size > 0 then .specfalse "C17:concurrent-workers-do-not-finish" "file savers blocked" else
+  let concRuns := (c.findAll "conc").toList.map fun r => (r.getD 1 "0").toNat!
   let runs := (c.findAll "run").toList
   let outs := (c.findAll "out").toList
   let implOut (r i : Nat) : Option ImplOut :=
@@ -122,7 +124,7 @@ def handleC17 (c : Case) : Verdict :=
           else if ss.any (· == 0) then "C17:bounds:empty-chunk"
           else if ss.any (· > maxS) then "C17:bounds:chunk-above-max"
           else "C17:bounds:non-final-chunk-below-min"
-        some (.specfalse sig s!"run={r} file={i} sizes={ss}")
+        some (.specfalse (if concRuns.contains r then sig ++ ":with-concurrent-workers" else sig) s!"run={r} file={i} sizes={ss}")
     match specV with
     | some v => (some v, [])
     | none =>
@@ -135,7 +137,7 @@ def handleC17 (c : Case) : Verdict :=
           | some m => if m.same io then none else some (.differ "chunks" s!"run={r} file={i} buf={bufSize} model={m.sizesOf} impl={io.sizesOf}")
           | none => some (.differ "model-outcome" s!"run={r} file={i} model={repr mo}")
         | _, _ => some (.differ "protocol" s!"run={r} file={i}")
-      let labels := [bufLabel bufSize] ++ (if dirty then ["dirty-worker"] else []) ++
+      let labels := [bufLabel bufSize] ++ (if dirty then ["dirty-worker"] else []) ++ (if concRuns.contains r then ["concurrent-workers"] else []) ++
         ((rr.toList.drop 4).map fun p => "rd-" ++ p) ++
         (impls.flatMap fun io => match io with
           | some .error => ["read-error"]
@@ -152,7 +154,8 @@ def handleC17 (c : Case) : Verdict :=
     (List.range nfiles).findSome? fun i =>
       match run0.bind (implOut · i), implOut r i with
       | some a, some b => if a.same b then none else
-          some (.specfalse "C17:boundaries-depend-on-read-pattern-or-buffer-size" s!"file={i} run0={a.sizesOf} run{r}={b.sizesOf}")
+          some (.specfalse (if concRuns.contains r then "C17:boundaries-depend-on-concurrently-processed-file"
+                            else "C17:boundaries-depend-on-read-pattern-or-buffer-size") s!"file={i} run0={a.sizesOf} run{r}={b.sizesOf}")
       | _, _ => none
   match indep with
   | some v => v
